@@ -94,7 +94,7 @@ LookAheadValid == Returned => ValidFraction(Add(xs[run.N + 1], run.dx))
 GridRel(s, t, dx) == Eq(t.x, Add(s.x, dx), One)
 PermRel(t, p0, c) == Eq(Mul(t.P[c], p0.f[c]), Mul(t.f[c], p0.P[c]), Mul(t.P[c], p0.f[c]))
 \* the call returns iff every grid point including the look-ahead point of the last iteration is a fraction
-RECURSIVE GridPoint(_, _, _)
-GridPoint(x0, dx, j) == IF j = 0 THEN x0 ELSE Add(GridPoint(x0, dx, j - 1), dx)
+\* (a recursive FUNCTION, not a RECURSIVE operator: tlapm does not read the latter)
+GridPoint(x0, dx, j) == LET g[k \in Nat] == IF k = 0 THEN x0 ELSE Add(g[k - 1], dx) IN g[j]
 ReturnsByGrid(x0, dx, N) == \A j \in 0..(N + 1) : ValidFraction(GridPoint(x0, dx, j))
 =============================================================================
